@@ -63,11 +63,12 @@ snapshot as client-go hands it out (snapshot isolation; read-committed would let
 the commit of its secondary keys in another region is on its way). Both of these need events INSIDE one engine call, which the
 harness cannot place: the facts are the tie, no failing input is found for them.
 Round 11 (`V01..V06`, per property for the six properties with the fewest changes so far - C06 C10 C12 C14 C04 C08 - with the
-instruction to prefer TWO COOPERATING SITES that each look fine alone; 2 of the changes delivered were missed at first) -> several
+instruction to prefer TWO COOPERATING SITES that each look fine alone; 3 of the 8 changes delivered were missed at first) -> several
 watchers of different directories and a burst of writes that the sequencer hands to the hub as ONE batch (a filter that compacts the
 shared batch in place takes events from the other watchers; C05 `gen_shared_batch`, C06 `shared_batch_case`; V01-A); skipped
 directories up to the whole directory of the prefix (a compaction with nothing left to compact must still write its record; C08;
-V06-B). While reading the scanner for this round one seeder pointed at a genuine defect of the unchanged tree - the guard against
+V06-B); requests whose caller is gone before the backend sees them (`gone=1`: an already cancelled context; a revision dealt for such
+a request must still be resolved; C04 `gone_case`; V05-A). While reading the scanner for this round one seeder pointed at a genuine defect of the unchanged tree - the guard against
 lowering the compaction record held only when the record could be READ - which was reproduced, repaired (539af5f), modelled
 (KB.CompactFault) and proved (KB.Props.C08Fault); its reverse is `fixrevert-539af5f`.
 The table is regenerated from the `result.json` files.
